@@ -24,7 +24,8 @@ CONSTANTS CIFS,      \* identifiers of managed CIFs, e.g. {"c1"}
           CSLOTS,    \* sequence of container-handle slot names
           LSLOTS,    \* sequence of loop-handle slot names
           MaxId, MaxDepth, MaxNl, MaxLast, MaxNames, MaxPkt, MaxHist, MaxLoopsPerCont,
-          SCRIPT     \* a sequence of (partial) log entries the first Len(SCRIPT) steps must match: populates a start state
+          SCRIPT,    \* a sequence of (partial) log entries the first Len(SCRIPT) steps must match: populates a start state
+          FOREIGN    \* TRUE: while an iterator is open, loop_add_packet / loop_add_item on OTHER loops of the same CIF are enabled
 
 \* spelling semantics, supplied by the model module: normal form and validity
 CONSTANTS NormC(_), ValidC(_), NormN(_), ValidN(_)
@@ -90,7 +91,15 @@ DistinctNorm(p) == \A i, j \in 1..Len(p) : i # j => NormN(p[i][1]) # NormN(p[j][
 Packets == {p \in UNION {[1..n -> ValidNames \X PVALS] : n \in 0..MaxPkt} : DistinctNorm(p)}
 PktNorms(p) == {NormN(p[i][1]) : i \in 1..Len(p)}
 
-Busy(c) == itr[c] # NoneH                 \* an iterator is open: everything but iterator calls is undefined
+Busy(c) == itr[c] # NoneH                 \* an iterator is open: access to ITS loop other than through it is undefined
+\* cif.h (cif_loop_get_packets): only access to the underlying loop is undefined while an iterator is active; other
+\* modifications of the same CIF are defined, what is undefined is whether they survive an abort.  With FOREIGN the
+\* two loop-level mutators stay enabled on loops other than the iterated one; a successful one sets itr[c].foreign,
+\* after which abort is no longer enabled (its outcome is not specified).  These calls run inside the iterator's
+\* transaction: "inside an enclosing transaction" of C05.
+OtherLoop(c, cid, num) == FOREIGN /\ Busy(c) /\ ~(itr[c].cid = cid /\ itr[c].num = num)
+FreeL(t) == ~Busy(hl[t].cif) \/ OtherLoop(hl[t].cif, hl[t].cid, hl[t].num)
+Touch(n, c) == IF n.itr[c] # NoneH THEN [n EXCEPT !.itr[c].foreign = TRUE] ELSE n
 HeldC(s) == hc[s] # NoneH /\ hc[s].cif \in cifs
 HeldL(s) == hl[s] # NoneH /\ hl[s].cif \in cifs
 StaleC(s) == ~ContExists(hc[s].cif, hc[s].id)      \* the container behind the handle is gone
@@ -367,7 +376,7 @@ LoopGetNamesR(t) ==
            names |-> IF ex THEN {i.orig : i \in LoopOf(h.cif, h.cid, h.num).items} ELSE {}], Cur)
 
 LoopAddItemR(t, name, v) ==
-    IF ~(HeldL(t) /\ ~Busy(hl[t].cif)) THEN Off ELSE
+    IF ~(HeldL(t) /\ FreeL(t)) THEN Off ELSE
     LET h == hl[t]  c == h.cif
         ex == LoopExists(c, h.cid, h.num)
         n == NormN(name)
@@ -379,11 +388,11 @@ LoopAddItemR(t, name, v) ==
           IF rc = OK
           THEN LET l == LoopOf(c, h.cid, h.num)
                    new == [l EXCEPT !.items = @ \cup {[norm |-> n, orig |-> name]}]
-               IN [Cur EXCEPT !.loops = (@ \ {l}) \cup {new}, !.vals = SetAll(new, n, v)]
+               IN Touch([Cur EXCEPT !.loops = (@ \ {l}) \cup {new}, !.vals = SetAll(new, n, v)], c)
           ELSE Cur)
 
 LoopAddPacketR(t, p) ==
-    IF ~(HeldL(t) /\ ~Busy(hl[t].cif)) THEN Off ELSE
+    IF ~(HeldL(t) /\ FreeL(t)) THEN Off ELSE
     LET h == hl[t]  c == h.cif
         ex == LoopExists(c, h.cid, h.num)
         l == LoopOf(c, h.cid, h.num)
@@ -395,9 +404,9 @@ LoopAddPacketR(t, p) ==
     IN IF rc = OK /\ l.last >= MaxLast THEN Off ELSE
        On([op |-> "loop_add_packet", loop |-> t, stale |-> StaleL(t), packet |-> p, rc |-> rc, cif |-> c],
           IF rc = OK
-          THEN [Cur EXCEPT !.loops = (@ \ {l}) \cup {[l EXCEPT !.last = @ + 1]},
+          THEN Touch([Cur EXCEPT !.loops = (@ \ {l}) \cup {[l EXCEPT !.last = @ + 1]},
                            !.vals = @ \cup {[cif |-> c, cid |-> h.cid, name |-> NormN(p[i][1]), row |-> l.last + 1, v |-> p[i][2]]
-                                             : i \in 1..Len(p)}]
+                                             : i \in 1..Len(p)}], c)
           ELSE Cur)
 
 \* ---- packet iterators (C06) ----
@@ -411,7 +420,7 @@ GetPacketsR(t) ==
           IF rc = OK
           THEN [Cur EXCEPT !.itr[c] = [k |-> "itr", lslot |-> t, cid |-> h.cid, num |-> h.num, scalar |-> (h.cat = ""),
                                        names |-> Norms(l), all |-> Rows(l), pending |-> SortedSeq(Rows(l)),
-                                       deliv |-> <<>>, cur |-> 0, fin |-> FALSE],
+                                       deliv |-> <<>>, cur |-> 0, fin |-> FALSE, foreign |-> FALSE],
                            !.snap[c] = <<ContsOf(c), {x \in loops : x.cif = c}, {x \in vals : x.cif = c}>>]
           ELSE Cur)
 
@@ -454,7 +463,7 @@ ItrCloseR(c) ==
     On([op |-> "itr_close", itr |-> c, rc |-> OK, cif |-> c], [Cur EXCEPT !.itr[c] = NoneH, !.snap[c] = <<>>])
 
 ItrAbortR(c) ==
-    IF ~(c \in cifs /\ Busy(c)) THEN Off ELSE
+    IF ~(c \in cifs /\ Busy(c) /\ ~itr[c].foreign) THEN Off ELSE
     On([op |-> "itr_abort", itr |-> c, rc |-> OK, cif |-> c],
        [Cur EXCEPT !.cont = {x \in @ : x.cif # c} \cup snap[c][1],
                    !.loops = {x \in @ : x.cif # c} \cup snap[c][2],
